@@ -897,6 +897,13 @@ func (w *world) cross(r *hx.Rng, tr *hx.Trace, entries []string) {
 							SigKey: didM + "#" + k.name, SigProc: p, SigMsg: msg, Note: "cross:" + e}
 						n++
 
+						// signature meaning: bytes are a signature only in a well-formed encoding (exact r||s or exact DER).
+						// A DER signature followed by further bytes is NOT a signature (the ECDSA verifier rejects trailing
+						// data since /repo adba44c); such bytes mean nothing (SOther) under every alg.
+						if e == "derpad" {
+							c.SigKey, c.SigProc, c.SigMsg = "", "", ""
+						}
+
 						// the model abstracts from the signature encoding: cases whose encoding the alg's verifier cannot
 						// even read are checked by the direct oracle only, unless alg and key agree on family and procedure
 						match := algFam[a] == k.fam && algProc[a] == p
